@@ -326,7 +326,7 @@ func RunCheck(o CheckOptions) int {
 				Kind: "R1", Vals: ob.Model, Decisions: ob.Decs, Facts: ob.Facts, Trace: ob.Trace, RepoHead: head}
 			allCex = append(allCex, rec)
 			rpt := 0
-			if ob.Facts["_maporder"] != "" {
+			if ob.Facts["_maporder"] != "" || ob.Facts["_schedule"] != "" {
 				rpt = 60
 			}
 			natIn = append(natIn, &nativeInput{Harness: pn.h.Name(), Package: pn.rep.Package, Vals: ob.Model, Repeat: rpt})
@@ -345,7 +345,7 @@ func RunCheck(o CheckOptions) int {
 					rep.CrossFailed = append(rep.CrossFailed, "no native outcome")
 					continue
 				}
-				if !out.Skipped && r.Facts["_maporder"] == "" {
+				if !out.Skipped && r.Facts["_maporder"] == "" && r.Facts["_schedule"] == "" {
 					rep.CrossChecked++
 				}
 				if msg := compareOutcome(r, out); msg != "" && len(rep.CrossFailed) < 5 {
@@ -525,7 +525,7 @@ type nativeOutcome struct {
 }
 
 func compareOutcome(r *PathResult, out *nativeOutcome) string {
-	if out.Skipped || r.Facts["_maporder"] != "" {
+	if out.Skipped || r.Facts["_maporder"] != "" || r.Facts["_schedule"] != "" {
 		// engine-only paths, and paths on which the engine chose a map iteration order (the
 		// native run cannot be forced into the same order), are not comparable
 		return ""
